@@ -21,6 +21,7 @@ for p, c, t in sorted(fixed): out.append(f"| {p} | {c} | {short(t)} |")
 out.append(f"\n#### Recorded, not repaired ({len(known)}; each has a witness facet that prints KNOWN-FINDING while it reproduces, and the main facet excludes exactly its trigger)\n")
 out.append("| property | witness | what fails | why not repaired |\n|---|---|---|---|")
 WHY = {
+ 'zstd-header-flag-unprotected': 'inherent to the zstd frame format as used: the frame header descriptor is outside the content checksum and the decoder cannot be told to require one; storing the content size (one encoder option) only raises the minimum damage from two bits to three',
  'slash-in-name-aliases-swamps': 'needs a naming decision: escaping "/" (e.g. %2F) collides with literal "%2F" unless "%" is escaped too, which would rename swamps of existing indexes',
  'time-attr-change-after-build': 'repair = re-sorting every time/value index on each attribute change (142-line patch over hot paths, kept in .work/proposed-fixes/C07-beacon-reposition.diff): not small',
  'value-change-after-build': 'same repair as above', 'value-index-insert-not-int64': 'same repair as above',
